@@ -34,15 +34,13 @@ inductive Cb where
   | muxInput (m i : Nat)
 deriving DecidableEq, Repr
 
-/-- `struct mux` -/
+/-- `struct mux`, the part fixed at connect time (`mux->selected` lives in `Bay.selected`). -/
 structure Mux where
   sel : Nat
   out : Nat
   kind : SelKind
   /-- `mux->inputs[i].chan` (`none` = not set yet); the length is `ninputs` -/
   inputs : List (Option Nat)
-  /-- `mux->selected` (`none` = -1).  `mux_init` leaves it 0 (memset), not -1. -/
-  selected : Option Nat := some 0
   /-- `mux->def` -/
   dflt : Value := .null
 deriving Repr
@@ -55,6 +53,9 @@ structure Bay where
   /-- the channel has a `BAY_CB_EMIT` callback (it only reads the channel) -/
   emits : List Bool := []
   muxes : List Mux := []
+  /-- `mux->selected` of every mux (`none` = -1).  `mux_init` leaves it 0
+      (memset), not -1. -/
+  selected : List (Option Nat) := []
   /-- `bay->dirty` -/
   dirty : List Nat := []
   maxStack : Nat := maxChanStack
@@ -62,6 +63,7 @@ deriving Repr
 
 def Bay.chan (b : Bay) (c : Nat) : Chan := b.chans.getD c {}
 def Bay.cbsOf (b : Bay) (c : Nat) : List Cb := b.cbs.getD c []
+def Bay.selOf (b : Bay) (mi : Nat) : Option Nat := b.selected.getD mi none
 
 /-- `chan_init` + `bay_register`: returns the new channel's id. -/
 def Bay.register (b : Bay) (c : Chan) : Bay × Nat :=
@@ -97,9 +99,7 @@ def Bay.disableCb (b : Bay) (c : Nat) (cb : Cb) : Bay :=
   { b with cbs := b.cbs.set c ((b.cbsOf c).erase cb) }
 
 def Bay.setSelected (b : Bay) (mi : Nat) (s : Option Nat) : Bay :=
-  match b.muxes[mi]? with
-  | none => b
-  | some m => { b with muxes := b.muxes.set mi { m with selected := s } }
+  { b with selected := b.selected.set mi s }
 
 /-- `mux_init`: the output becomes DIRTY_WRITE + ALLOW_DUP, the select
     callback is always enabled.  Returns the mux id. -/
@@ -113,7 +113,8 @@ def Bay.muxInit (b : Bay) (sel out : Nat) (kind : SelKind) (ninputs : Nat) : Exc
       let b1 : Bay :=
         { b with chans := b.chans.set out { oc with dirtyWrite := true, allowDup := true },
                  muxes := b.muxes ++ [{ sel := sel, out := out, kind := kind,
-                                        inputs := List.replicate ninputs none }] }
+                                        inputs := List.replicate ninputs none }],
+                 selected := b.selected ++ [some 0] }
       .ok (b1.enableCb sel (.muxSelect mi), mi)
   | _, _ => .error .other
 
@@ -158,7 +159,7 @@ def Mux.selectInput (m : Mux) (v : Value) : Except Err (Option Nat) :=
 
 /-- "Clear previous selected input" of `cb_select`. -/
 def Bay.clearSelected (b : Bay) (mi : Nat) (m : Mux) : Except Err Bay :=
-  match m.selected with
+  match b.selOf mi with
   | none => .ok b
   | some j =>
     match m.inputs[j]? with
